@@ -7,6 +7,7 @@ from vlib import intervals as iv
 from vlib.runner import Stats, Violation, sut
 
 ID = "C15"
+DETERMINISTIC = True  # pure in-memory functions judged by a pure oracle: see runner (a failure seen once counts)
 RULE = (
     "case = two time-sorted, internally non-overlapping layouts (0..8 each) on a ms grid; the second is independent or a perturbation of the first "
     "(containment both ways, one spanning several, shared edges, zero-length). Oracle on integers: output == multiset(list one, unchanged) + "
